@@ -870,8 +870,11 @@ def _dipole_vector(grid, points, decimals=9, nodes=None):
         """Return [min, max]-index of cells in which points resides."""
         vmin = min(points[:, i])
         vmax = max(points[:, i])
-        return [max(0, np.where(vmin < np.r_[vector, np.inf])[0][0]-1),
-                max(0, np.where(vmax < np.r_[vector, np.inf])[0][0]-1)]
+        imin = np.where(vmin < np.r_[vector, np.inf])[0][0]-1
+        imax = np.where(vmax < np.r_[vector, np.inf])[0][0]-1
+        # Limit to existing cells (points on the last node: last cell).
+        return [min(max(0, imin), vector.size-2),
+                min(max(0, imax), vector.size-2)]
 
     rix = min_max_ind(nodes_x, 0)
     riy = min_max_ind(nodes_y, 1)
